@@ -29,7 +29,10 @@ RULE = (
     "voice transmission a voice-sync burst is labelled A and the voice bursts that follow it B..F, A.. until a "
     "non-voice burst intervenes; I6 sequence_no = previous + 1 mod 256, restarting at the timeslot's first value after "
     "a call that delivered an ended; I7 every recorder (behind a raising observer or not) saw the same events, "
-    "timeslot recorders only their own.  Distinct = hash of the op list; non-trivial = at least one ended notification, "
+    "timeslot recorders only their own.  'short_data_boundary' adds a deterministic enumeration of complete 2-3 burst data "
+    "calls (3 SAPs x confirmed/unconfirmed x rate 1/2 + one other rate x blocks-to-follow 1, 2) whose first six user-data "
+    "octets take values from {00,01,7F,80,81,FF} on two positions at a time (positions (3,4): all 36 pairs x 3 fills x "
+    "both timeslots; the other position pairs: 4 sampled pairs each).  Distinct = hash of the op list; non-trivial = at least one ended notification, "
     "or a start while another transmission was open, or both timeslots used."
 )
 ASSUMPTIONS = [
@@ -827,8 +830,93 @@ def drv_exhaustive(ctx: Ctx, sub: SubCheck):
     ctx.tally.notes.append(f"short_histories: all burst sequences of length <= {depth} over the {n}-burst reduced alphabet (terminal-level raiser on)")
 
 
+# ---------------------------------------------------------------------------------------------- directed: short data calls, boundary octets
+
+BOUNDARY_OCTETS = [0x00, 0x01, 0x7F, 0x80, 0x81, 0xFF]  # zero / one / all-ones with and without the (reserved) top bit
+
+
+def _boundary_histories(ctx: Ctx):
+    """Deterministic enumeration of complete 2-3 burst data calls (header + 1 or 2 blocks) whose first six *user-data* octets
+    take boundary / reserved-bit values on two positions at a time: positions (3,4) (the SPID / DPID octets of a compressed
+    UDP/IPv4 header) over all 36 value pairs x 3 fills x both timeslots, the other 14 position pairs over 4 sampled value
+    pairs each; remaining octets 0x00 / 0xFF / a counting pattern."""
+    rng = ctx.rng("short_data_boundary")
+    value_pairs = [(a, b) for a in BOUNDARY_OCTETS for b in BOUNDARY_OCTETS]
+    pos_pairs = [(i, j) for i in range(6) for j in range(i + 1, 6)]
+    fills = [lambda i: 0x00, lambda i: 0xFF, lambda i: (i * 37 + 11) & 0xFF]
+    items = []
+    ci = 0
+    for sap in ("UDP_IP_compression", "IP_PacketData", "ShortData"):
+        for conf in (False, True):
+            for rate in ("1/2", ("3/4", "1")[ci % 2]):
+                for btf in (1, 2):
+                    ci += 1
+                    n = RATES[rate]
+                    off = 2 if conf else 0  # a confirmed block spends its first two octets on serial number + CRC-9
+                    k = 0
+                    for pq in pos_pairs:
+                        if pq == (3, 4):
+                            combos = [(v, f, ts) for v in value_pairs for f in range(3) for ts in (1, 2)]
+                        else:
+                            combos = []
+                            for v in rng.sample(value_pairs, 4):
+                                k += 1
+                                combos.append((v, k % 3, 1 + (k // 3) % 2))
+                        for (a, b), f, ts in combos:
+                            first = bytearray(fills[f](i) for i in range(n))
+                            first[off + pq[0]], first[off + pq[1]] = a, b
+                            ops = [{"k": "dhdr", "ts": ts, "cc": 1, "fmt": "confirmed" if conf else "unconfirmed", "btf": btf, "a": conf, "sap": sap, "poc": 0, "x": ci}]
+                            ops.append({"k": "data", "ts": ts, "cc": 1, "rate": rate, "hex": bytes(first).hex()})
+                            if btf == 2:
+                                ops.append({"k": "data", "ts": ts, "cc": 1, "rate": rate, "hex": bytes(fills[(f + 1) % 3](i) for i in range(n)).hex()})
+                            items.append(({"ops": ops}, f"{sap}_{'confirmed' if conf else 'unconfirmed'}_rate_{rate}_btf_{btf}", pq == (3, 4)))
+    return items
+
+
+def _judge_history(ctx: Ctx, sub_name: str, case, t: Tally):
+    """run one history through a fresh Runner, judge a failure, return the runner (closed)"""
+    from vp.core import exc_klass
+
+    r = Runner()
+    try:
+        try:
+            for op in case["ops"]:
+                r.apply(op)
+        except Fail as f:
+            ctx.judge(sub_name, case, f, t)
+        except HarnessError:
+            raise
+        except Exception as e:
+            if not lib_raised(e):
+                raise
+            ctx.judge(sub_name, case, Fail("no_unexpected_exception", f"{type(e).__name__}: {e}", "no exception", exc_klass(e)), t)
+    finally:
+        r.close()
+    return r
+
+
+def drv_boundary(ctx: Ctx, sub: SubCheck):
+    items = _boundary_histories(ctx)
+    chunks = [items[i::64] for i in range(64)]
+
+    def work(chunk, t: Tally):
+        for j, (case, label, spid_dpid) in enumerate(chunk):
+            r = _judge_history(ctx, sub.name, case, t)
+            t.case(sub.name, nontrivial=r.nontrivial(), cls=label)
+            t.cls(sub.name, "positions_3_4_exhaustive" if spid_dpid else "other_position_pair_sampled")
+            if r.stats["ended_data"]:
+                t.cls(sub.name, "history_with_ended_data")
+            if j == 0:
+                t.sample(sub.name, case)
+
+    ctx.shards(work, chunks)
+    ctx.tally.extra["short_data_boundary_histories"] = len(items)
+    ctx.tally.notes.append("short_data_boundary: directed enumeration (value pairs on user-data positions (3,4) complete, other position pairs sampled); identical in both tiers")
+
+
 SUBCHECKS = [
     SubCheck("short_histories", oracle_history, drv_exhaustive, "all sequences up to length 4 (quick) / 5 (thorough) over an 11-burst reduced alphabet, invariants I1..I7 after every burst"),
+    SubCheck("short_data_boundary", oracle_history, drv_boundary, "directed: header + 1..2 blocks, 3 SAPs x 2 modes x rates x both timeslots, first six user-data octets from {00,01,7F,80,81,FF} on two positions at a time ((3,4) complete), I1..I7"),
     SubCheck("machine", oracle_history, drv_machine, "Hypothesis RuleBasedStateMachine over the full alphabet with generated fields, scripted prefixes, raiser toggles"),
 ]
 PREDICATES = {}
